@@ -3,7 +3,7 @@ from pyvc.native import *      # noqa: F401,F403
 
 CONTEXT_FILE = 'frappy/modulebase.py'
 SOURCES = ['frappy/modulebase.py', 'frappy/errors.py']
-GHOSTS = ['poll_calls']
+GHOSTS = ['poll_calls', 'wakeups']
 ASSUMPTIONS = [
     'A3/A6/A7 as for the other properties',
     'read / poll functions are abstract callables: any result, any Exception (recorded in the ghost log poll_calls)',
@@ -15,8 +15,10 @@ ASSUMPTIONS = [
 CLASSES = {
     'Exception': dict(fields={'report_error': 'any', 'raising_methods': 'list', 'silent': 'any'}, bases=[]),
     'SECoPError': dict(fields={'report_error': 'any', 'raising_methods': 'list', 'silent': 'any'}),
-    'PollInfo': dict(fields={'pending_errors': 'set'}),
-    'Module': dict(fields={'name': 'str', 'pollInfo': 'PollInfo', 'log': 'any'}),
+    'Event': dict(fields={}),
+    'PollInfo': dict(fields={'pending_errors': 'set', 'interval': 'any', 'last_main': 'any', 'last_slow': 'any', 'fast_flag': 'any',
+                             'trigger_event': 'Event'}),
+    'Module': dict(fields={'name': 'str', 'pollInfo': 'PollInfo|none', 'log': 'any', 'pollinterval': 'any'}),
 }
 
 def Calls(log, kind, mod=None, name=None):
@@ -95,10 +97,32 @@ CONTRACTS = [
          ensures={'text': 'is_str(result)'}, raises='never', result_kind='str'),
     dict(key='formatException', file=None, func=None, packed_args=True, serves=[], trusted=True, requires=[],
          ensures={'text': 'is_str(result)'}, raises='never', result_kind='str'),
+    # ---- interval changes and fast polling take effect from the next wake-up: the new interval is stored and the thread is woken
+    dict(key='Event.set', file=None, func=None, signature='self', serves=[], trusted=True, requires=[], ghost_modifies=['wakeups'],
+         ensures={'woken': 'wakeups == old(wakeups) + [self]'}, raises='never'),
+    dict(key='PollInfo.trigger', file='frappy/modulebase.py', func='PollInfo.trigger', serves=['C13'], self_type='PollInfo',
+         requires=['inv(self)'], modifies=['last_main'], ghost_modifies=['wakeups'],
+         ensures={'woken': 'wakeups == old(wakeups) + [self.trigger_event]',
+                  'immediate': 'implies(immediate is True, py_eq(self.last_main, 0))',
+                  'otherwise': 'implies(immediate is False, same_value(self.last_main, old(self.last_main)))'},
+         raises='never'),
+    dict(key='PollInfo.update_interval', file='frappy/modulebase.py', func='PollInfo.update_interval', serves=['C13'], self_type='PollInfo',
+         requires=['inv(self)', 'is_bool(self.fast_flag)'], modifies=['interval', 'last_main'], ghost_modifies=['wakeups'],
+         ensures={'applied': 'implies(not self.fast_flag, same_value(self.interval, pollinterval) and len(wakeups) == len(old(wakeups)) + 1)',
+                  'fast_wins': 'implies(self.fast_flag, same_value(self.interval, old(self.interval)) and wakeups == old(wakeups))'},
+         raises='never'),
+    dict(key='Module.setFastPoll', file='frappy/modulebase.py', func='Module.setFastPoll', serves=['C13'], self_type='Module',
+         params={'flag': 'bool'}, requires=['inv(self)', 'implies(self.pollInfo is not None, inv(self.pollInfo))'],
+         modifies=['fast_flag', 'interval', 'last_main'], ghost_modifies=['wakeups'],
+         ensures={'fast': 'implies(self.pollInfo is not None and flag, same_value(self.pollInfo.interval, fast_interval))',
+                  'normal': 'implies(self.pollInfo is not None and not flag, same_value(self.pollInfo.interval, self.pollinterval))',
+                  'flag': 'implies(self.pollInfo is not None, self.pollInfo.fast_flag is flag and len(wakeups) == len(old(wakeups)) + 1)',
+                  'no_thread': 'implies(self.pollInfo is None, wakeups == old(wakeups))'},
+         raises='never'),
     # error containment: whatever a read / poll function raises stays inside, except a communication failure when asked for
     dict(key='Module.callPollFunc', file='frappy/modulebase.py', func='Module.callPollFunc', serves=['C13'],
          self_type='Module', params={'rfunc': 'callable:pollfn', 'raise_com_failed': 'bool'},
-         requires=['inv(self)', 'inv(self.pollInfo)'], modifies=['pending_errors', 'raising_methods'], ghost_modifies=['poll_calls'],
+         requires=['inv(self)', 'self.pollInfo is not None', 'inv(self.pollInfo)'], modifies=['pending_errors', 'raising_methods'], ghost_modifies=['poll_calls'],
          check_frame=False,
          ensures={'called_once': 'poll_calls == old(poll_calls) + [rfunc]'},
          raises={'only_when_asked': 'raise_com_failed and issubclass(exc, CommunicationFailedError)',
